@@ -429,10 +429,21 @@ func (*c41Runner) Step(op string) string {
 		mu.Unlock()
 		for _, a := range snapshot {
 			ctx, cancel := context.WithTimeout(context.Background(), 50*time.Millisecond)
-			if _, err := a.fut.Wait(ctx); err != nil {
+			_, err := a.fut.Wait(ctx)
+			cancel()
+			if err != nil {
+				// Wait selects between the future's done channel and ctx.Done(): when the
+				// scheduler starved this goroutine past the 50 ms grace, BOTH are ready and Go
+				// picks at random, so a completed future can still answer with the context
+				// error. Poll with the (now cancelled) context: a completed future wins a poll
+				// with probability 1/2 each time, an incomplete one never does.
+				for try := 0; try < 24 && err != nil; try++ {
+					_, err = a.fut.Wait(ctx)
+				}
+			}
+			if err != nil {
 				log.add("p.%d", a.id)
 			}
-			cancel()
 		}
 	}
 	for int(began.Load()) < stopAfter && int(began.Load()) < senders*calls {
